@@ -23,6 +23,21 @@ def dispatchOk (atArrival : Option String) (inCands : Bool) : Bool := inCands &&
 def onlyRoutableReceived (statusAtArrival : Nat → Option String) (received : List Nat) : Bool :=
   received.all (fun e => routableAt (statusAtArrival e))
 
+/-! ### "marked failed by … a failed attempt completed before the request arrived" (monitor over a history)
+
+The ghost set `failedSince`: endpoints on which an attempt failed and was failed over from, and that no later check has
+marked routable.  `Props.C03.C03_marked_failed_excluded` is the statement about the model. -/
+
+/-- attempts the system itself treated as failed: everything it failed over from -/
+def failedOverFrom (received : List Nat) : List Nat := received.dropLast
+
+/-- a request that arrives later reaches none of them -/
+def noneAfterFailedAttempt (failedSince received : List Nat) : Bool := !received.any (fun e => failedSince.contains e)
+
+/-- a check result `s` for `e` readmits it iff `s` is routable -/
+def afterCheck (failedSince : List Nat) (e : Nat) (s : String) : List Nat :=
+  if isRoutable s then failedSince.filter (· != e) else failedSince
+
 /-- Concurrent writers: the endpoint must have been routable at some instant of the request's lifetime
     (`held` = every status the endpoint held between the request's start and end). -/
 def routableSometime (held : List String) : Bool := held.any isRoutable
